@@ -1,0 +1,13 @@
+//go:build verif
+
+package rtsp
+
+import "net"
+
+// Verification hooks (build tag verif): add-only exports used by the /verif conformance harness.
+
+// VerifHandleTcpConnect runs the server's per-connection routine (command loop, then the report of
+// the departing pub / sub session to the observer) on a connection supplied by a test.
+func (s *Server) VerifHandleTcpConnect(conn net.Conn) {
+	s.handleTcpConnect(conn)
+}
